@@ -322,7 +322,11 @@ func (f *OrefaFile) ReadDir(n int) ([]fs.DirEntry, error) {
 		nd.mu.RUnlock()
 
 		f.dirEntriesLoaded = true
-		f.dirIndex = 0
+
+		if !f.dirNamesLoaded {
+			// ReadDir and Readdirnames read the same directory stream.
+			f.dirIndex = 0
+		}
 	}
 
 	start := f.dirIndex
@@ -401,7 +405,11 @@ func (f *OrefaFile) Readdirnames(n int) (names []string, err error) {
 		nd.mu.RUnlock()
 
 		f.dirNamesLoaded = true
-		f.dirIndex = 0
+
+		if !f.dirEntriesLoaded {
+			// ReadDir and Readdirnames read the same directory stream.
+			f.dirIndex = 0
+		}
 	}
 
 	start := f.dirIndex
